@@ -38,6 +38,8 @@ var c13Options = []jen.Options{
 	{Separator: "|"},
 	{Open: "{", Close: "}", Separator: ";", Multi: true},
 	{Open: "[", Close: "]"},
+	{Multi: true, Separator: " +"},
+	{Close: ";", Multi: true},
 }
 
 func (lc listConstruct) String() string {
@@ -130,6 +132,18 @@ var c13Nulls = []nullKind{
 	{"Custom{}(Null())", func() jen.Code { return jen.Custom(jen.Options{Separator: ","}, jen.Null()) }},
 }
 
+// c13RealStyle selects what the real items are: identifiers (0), the last one a line comment
+// (1), the first one a line comment (2), each followed by a comment (3).
+func c13RealOf(style, i, arity int) jen.Code {
+	switch {
+	case style == 1 && i == arity-1, style == 2 && i == 0:
+		return jen.Comment(fmt.Sprintf("c%d", i))
+	case style == 3:
+		return jen.Id(fmt.Sprintf("x%d", i)).Comment("t")
+	}
+	return jen.Id(fmt.Sprintf("x%d", i))
+}
+
 func c13Real(i int) jen.Code { return jen.Id(fmt.Sprintf("x%d", i)) }
 
 func c13RenderStmt(s *jen.Statement) jh.Outcome { return jh.Raw(s) }
@@ -146,7 +160,7 @@ type c13Case struct {
 }
 
 // c13Inject builds the item list with null items injected as the choice vector says.
-func c13Inject(c *explore.Ctx, arity int) (items []jen.Code, desc []string, injected int) {
+func c13Inject(c *explore.Ctx, arity, style int) (items []jen.Code, desc []string, injected int) {
 	for slot := 0; slot <= arity; slot++ {
 		for k := 0; k < 2; k++ {
 			n := c.Choose(1 + len(c13Nulls))
@@ -158,17 +172,19 @@ func c13Inject(c *explore.Ctx, arity int) (items []jen.Code, desc []string, inje
 			injected++
 		}
 		if slot < arity {
-			items = append(items, c13Real(slot))
-			desc = append(desc, fmt.Sprintf("x%d", slot))
+			items = append(items, c13RealOf(style, slot, arity))
+			desc = append(desc, fmt.Sprintf("item%d", slot))
 		}
 	}
 	return
 }
 
-func c13Plain(arity int) []jen.Code {
+func c13Plain(arity int) []jen.Code { return c13PlainStyle(arity, 0) }
+
+func c13PlainStyle(arity, style int) []jen.Code {
 	var items []jen.Code
 	for i := 0; i < arity; i++ {
-		items = append(items, c13Real(i))
+		items = append(items, c13RealOf(style, i, arity))
 	}
 	return items
 }
@@ -282,8 +298,8 @@ func runC13(r *ev.Recorder) {
 	for _, n := range c13Nulls {
 		nn = append(nn, n.name)
 	}
-	r.Rule = fmt.Sprintf("list constructs discovered by reflection over *Statement's method set at check time (%d: every variadic ...Code builder, its ...Func variant, Custom/CustomFunc with 4 option shapes): %v. "+
-		"(a) injection: arities 0..%d; at every slot (before, between, after the real items) up to 2 null items of %d kinds %v, with at most %d injected items per case (choice-point explorer); oracle: raw rendering identical to the one without injections (differential, fresh objects). "+
+	r.Rule = fmt.Sprintf("list constructs discovered by reflection over *Statement's method set at check time (%d: every variadic ...Code builder, its ...Func variant, Custom/CustomFunc with 6 option shapes incl. multi-line without opening token): %v. "+
+		"(a) injection: arities 0..%d (real items: identifiers; for arities 1..3 also with a line comment as last / first item and with a trailing comment on every item); at every slot (before, between, after the real items) up to 2 null items of %d kinds %v, with at most %d injected items per case (choice-point explorer); oracle: raw rendering identical to the one without injections (differential, fresh objects). "+
 		"(b) Empty(): at every position of every arity 1..%d; oracle: raw bytes equal those with an identifier in its place after deleting the identifier. "+
 		"(c) re-render: a placeholder item (bare, or inside List/Union/Add/Custom/Types) that is null at the first render and real at the second, and vice versa; each render must equal a freshly built list. "+
 		"(d) one argument slice with nil entries spread into two constructs (every ordered pair of constructs x every nil placement): both render as if built privately, twice, and the caller's slice is unchanged. "+
@@ -294,23 +310,29 @@ func runC13(r *ev.Recorder) {
 		ci, lc := ci, lc
 		for arity := 0; arity <= maxArity; arity++ {
 			arity := arity
-			want := c13RenderStmt(lc.build(c13Plain(arity)))
-			explore.Explore(explore.Options{MaxDev: dev, Stop: r.Expired}, func(c *explore.Ctx) {
-				items, desc, inj := c13Inject(c, arity)
-				got := c13RenderStmt(lc.build(items))
-				r.Eval(1)
-				d := fmt.Sprintf("%s(%s)", lc, strings.Join(desc, ", "))
-				if inj > 0 {
-					r.Distinct(d)
+			for style := 0; style < 4; style++ {
+				if style > 0 && (arity == 0 || arity > 3) {
+					continue
 				}
-				if got.Key() != want.Key() {
-					r.Violate(ev.Violation{Signature: "c13:inject:" + lc.name + ":" + problemKind(got.Key()), What: fmt.Sprintf("%s renders %q, without the null items %q", d, got, want),
-						Case: ev.JSON(c13Case{Kind: "inject", Construct: ci, Arity: arity, Vector: c.Vector(), Desc: d}), Detail: fmt.Sprintf("got  %s\nwant %s", got, want)})
-				}
-				if inj == 2 && arity == 2 && r.WantSample() && ci%5 == 0 {
-					r.Sample(map[string]any{"case": d, "renders": got.String()})
-				}
-			})
+				style := style
+				want := c13RenderStmt(lc.build(c13PlainStyle(arity, style)))
+				explore.Explore(explore.Options{MaxDev: dev, Stop: r.Expired}, func(c *explore.Ctx) {
+					items, desc, inj := c13Inject(c, arity, style)
+					got := c13RenderStmt(lc.build(items))
+					r.Eval(1)
+					d := fmt.Sprintf("%s(%s) item style %d", lc, strings.Join(desc, ", "), style)
+					if inj > 0 {
+						r.Distinct(d)
+					}
+					if got.Key() != want.Key() {
+						r.Violate(ev.Violation{Signature: "c13:inject:" + lc.name + ":" + problemKind(got.Key()), What: fmt.Sprintf("%s renders %q, without the null items %q", d, got, want),
+							Case: ev.JSON(c13Case{Kind: "inject", Construct: ci, Arity: arity, Wrap: style, Vector: c.Vector(), Desc: d}), Detail: fmt.Sprintf("got  %s\nwant %s", got, want)})
+					}
+					if inj == 2 && arity == 2 && r.WantSample() && ci%5 == 0 {
+						r.Sample(map[string]any{"case": d, "renders": got.String()})
+					}
+				})
+			}
 			for pos := 0; pos < arity; pos++ {
 				r.Eval(1)
 				d := fmt.Sprintf("%s arity %d Empty() at %d", lc, arity, pos)
@@ -355,8 +377,8 @@ func replayC13(raw json.RawMessage) (bool, string) {
 	var msg string
 	switch c.Kind {
 	case "inject":
-		items, _, _ := c13Inject(explore.NewReplay(c.Vector), c.Arity)
-		got, want := c13RenderStmt(lc.build(items)), c13RenderStmt(lc.build(c13Plain(c.Arity)))
+		items, _, _ := c13Inject(explore.NewReplay(c.Vector), c.Arity, c.Wrap)
+		got, want := c13RenderStmt(lc.build(items)), c13RenderStmt(lc.build(c13PlainStyle(c.Arity, c.Wrap)))
 		if got.Key() != want.Key() {
 			msg = fmt.Sprintf("renders %q, without the null items %q", got, want)
 		}
